@@ -10,10 +10,10 @@ CHECKS = {
          "Trusts M's transcription of the documented semantics (DESIGN §2.3; rows pinned to current behaviour are flagged), chrono date arithmetic. Expressions larger than the bound and days outside the window are not covered.", "DESIGN.md §3 C01"),
  "C02": ("model_checking", "the interval iterator explored as a transition system (every next() of every explored stream) on the real code against the pointwise run-length oracle P built from the real schedule_at over every day of the window, including streams consumed to exhaustion over all 2 958 466 days",
          "Run-length equality between the iterator's stream and the per-day schedules for every expression of the bounded family (incl. the shortcut family K: every sequence of <=3 rules the constant-expression shortcut can tell apart), from every derived start instant; the long-skip list is checked over the full supported range so that skips of months to millennia are covered.",
-         "P uses the real schedule_at (consistency of two paths of the implementation; schedule_at itself is C01). Expressions beyond the bound, time-zone contexts (C09) are outside.", "DESIGN.md §3 C02"),
+         "P uses the real schedule_at (consistency of two paths of the implementation; schedule_at itself is C01). Expressions beyond the bound are outside. Time-zone contexts: the shape clauses are explored in absolute time around every minute-aligned UTC-offset transition signature of the compiled tz database (DESIGN §11.8); two open known findings there (skipped hour, repeated hour).", "DESIGN.md §3 C02"),
  "C03": ("model_checking", "exhaustive enumeration of derived instants (every boundary of the pointwise oracle with minute/sub-minute offsets, range extremes) on the real state/is_*/next_change against the pointwise run-length oracle P",
          "state(t) and next_change(t) are compared with P at every derived instant of every expression of the bounded family (incl. the shortcut family K); oracle-free relations (next_change > t, equal inside one run) are checked on the same instants.",
-         "P uses the real schedule_at. Long-horizon next_change queries are budgeted by a deterministic schedule_at-call counter (hook H1); skipped instants are counted in the evidence.", "DESIGN.md §3 C03"),
+         "P uses the real schedule_at. Long-horizon next_change queries are budgeted by a deterministic schedule_at-call counter (hook H1); skipped instants are counted in the evidence. Time-zone contexts: next_change against the absolute-time pointwise state around every minute-aligned transition signature (DESIGN §11.8); two open known findings there.", "DESIGN.md §3 C03"),
  "C04": ("exploration", "exhaustive enumeration of a stated finite string space (all <=4/5-token strings over a 47-token alphabet, all single-token edits of the expression family, numeric fields at their limits, inverted/degenerate ranges at every range position) through the real parser, and of every distinct parsed expression through an API battery in naive/holiday/time-zone/coordinate contexts, under catch_unwind and a deterministic work counter",
          "The property quantifies over all strings and all representable date-times, so no finite enumeration is complete: the check is exhaustive over the stated spaces only (level: exploration). No panic, and at most one schedule_at per day of the supported range per API call (hook H1).",
          "catch_unwind catches panics; aborts would surface as machinery failures. A call that does not return is reported by a watchdog thread (240 s per call; exit-code-3 protocol -> VIOLATION). Long-horizon unbounded calls are budgeted per expression (counted).", "DESIGN.md §3 C04"),
@@ -25,10 +25,10 @@ CHECKS = {
          "AST equality implies equal evaluation; the evaluation comparison is bounded by the window. Python str/repr is covered through the C12 driver.", "DESIGN.md §3 C06"),
  "C07": ("model_checking", "bounded exhaustive enumeration of the normalisation family (canonical x non-canonical rules, all kinds/operators) with a differential oracle: real schedule_at of e vs of normalize(e) on every day of the window",
          "Both sides are the real code; every expression of N, E2, E1 and the corpus is compared on every day of the window in two calendar contexts.",
-         "Bounded by the family and the window. One open known finding (closed rule dropped before a spilling rule).", "DESIGN.md §3 C07"),
+         "Bounded by the family and the window. No open finding (the former one was resolved by fix df7c347).", "DESIGN.md §3 C07"),
  "C08": ("model_checking", "exhaustive enumeration of the boundary expression family x a 23-instant alphabet (around and far outside both ends of 1900..9999) x all ordered instant pairs as iteration windows, on the real code against the statement and the pointwise oracle P",
          "Every (expression, instant) and every (expression, from, to) combination of the boundary family is executed; closedness outside the range, window containment of every interval, next_change never at/after 10000-01-01 and its value from before 1900 are checked literally.",
-         "P uses the real schedule_at over all 2 958 466 days. NaiveDateTime::MAX itself is left to C04.", "DESIGN.md §3 C08"),
+         "P uses the real schedule_at over all 2 958 466 days. NaiveDateTime::MAX itself is left to C04. Time-zone contexts: window containment in absolute time around every minute-aligned transition signature (DESIGN §11.8); one open known finding there (requested end inside the first pass of a repeated hour).", "DESIGN.md §3 C08"),
  "C09": ("model_checking", "exhaustive enumeration of the UTC-offset transitions of every zone of the compiled tz database (1900..2040) x instants around each x input zones x expressions on the real TzLocation evaluation, against the location-free evaluation at the wall-clock time mapped back as the statement prescribes",
          "All 40 557 transitions of all 596 zones (thorough) or one per distinct offset/time signature (quick); every minute of T-90..T+90; state, next_change and iter_range compared with the naive evaluation; later instant on folds, first valid instant after gaps, bounds never going backwards.",
          "Trusts chrono-tz data and offset_from_utc_datetime (UTC->local is total and unambiguous). Transitions after 2040 follow the same signatures.", "DESIGN.md §3 C09"),
